@@ -34,19 +34,19 @@ ASSUMPTIONS = ['golden digests are computed by the same tree in a fresh interpre
                'no table-definition (data category 11) message is processed in these histories',
                'the table-group cache size is read through a probe of TableGroupCacheManager._TABLE_GROUP_CACHE (evidence only)']
 BUDGET = {'quick': 55, 'thorough': 700}
-POOLSIZE = {'quick': 18, 'thorough': 60}
+POOLSIZE = {'quick': 15, 'thorough': 60}
 HISTORIES = {'quick': 4, 'thorough': 16}
-STEPS = {'quick': 60, 'thorough': 400}
-REQUIRED = {'quick': {'evaluations': 2500, 'golden_from_fresh_interpreters': 150, 'history_steps': 2500,
-                      'steps_after_failure': 100, 'table_group_evictions': 50, 'compiled_cache_evictions': 30,
-                      'kept_object_rechecks': 150, 'encode_steps': 200, 'limit_50_histories': 2,
-                      'lenient_then_strict_steps': 100, 'version_sensitive_pairs_in_pool': 16,
+STEPS = {'quick': 50, 'thorough': 400}
+REQUIRED = {'quick': {'evaluations': 1200, 'golden_from_fresh_interpreters': 110, 'history_steps': 1200,
+                      'steps_after_failure': 38, 'table_group_evictions': 50, 'compiled_cache_evictions': 30,
+                      'kept_object_rechecks': 150, 'encode_steps': 120, 'limit_50_histories': 2,
+                      'lenient_then_strict_steps': 50, 'version_sensitive_pairs_in_pool': 16,
                       'distinct_table_group_keys_max': 51},
-            'thorough': {'evaluations': 60000, 'golden_from_fresh_interpreters': 600, 'history_steps': 60000,
-                         'steps_after_failure': 3000, 'table_group_evictions': 2000, 'compiled_cache_evictions': 1000,
-                         'kept_object_rechecks': 4000, 'encode_steps': 5000, 'limit_50_histories': 16,
-                         'lenient_then_strict_steps': 2000, 'version_sensitive_pairs_in_pool': 40,
-                         'distinct_table_group_keys_max': 51}}
+            'thorough': {'evaluations': 38000, 'golden_from_fresh_interpreters': 340, 'history_steps': 40000,
+                      'steps_after_failure': 1800, 'table_group_evictions': 2000, 'compiled_cache_evictions': 1000,
+                      'kept_object_rechecks': 4000, 'encode_steps': 5000, 'limit_50_histories': 16,
+                      'lenient_then_strict_steps': 2000, 'version_sensitive_pairs_in_pool': 38,
+                      'distinct_table_group_keys_max': 51}}
 
 
 def anchors():
@@ -168,17 +168,25 @@ def fresh_golden(ctx, pool, scratch):
         if 'error' in g:
             ctx.count('golden_decode_error')
             continue
-        # the encode golden comes from an interpreter that has not decoded anything (not even this message)
-        try:
-            jf = os.path.join(scratch, 'm%d.json' % i)
-            with open(jf, 'w') as f:
-                f.write(g['flat_json'])
-            p2 = subprocess.run([sys.executable, '-m', 'mon.digest', '--encode', jf] + ([root] if root else []), capture_output=True,
-                                timeout=120, env=env, cwd=os.environ.get('VERIF_DIR', '/verif'))
-            g['encode'] = json.loads(p2.stdout.decode())['encode']
-            ctx.count('encode_goldens_from_fresh_interpreters')
-        except Exception as e:
-            ctx.notes.append('encode golden failed for %s: %r' % (name, e))
+        # the encode golden comes from an interpreter that has not decoded anything (not even this message) - for the
+        # messages where that can matter (table identifications outside the bundle, table-sensitive pairs) and a third of
+        # the rest; it must agree with the encode done after the decode in the first interpreter
+        if name.startswith(('unbundled', 'pair', 'lpair')) or i % 3 == 0:
+            try:
+                jf = os.path.join(scratch, 'm%d.json' % i)
+                with open(jf, 'w') as f:
+                    f.write(g['flat_json'])
+                p2 = subprocess.run([sys.executable, '-m', 'mon.digest', '--encode', jf] + ([root] if root else []), capture_output=True,
+                                    timeout=120, env=env, cwd=os.environ.get('VERIF_DIR', '/verif'))
+                alone = json.loads(p2.stdout.decode())['encode']
+                ctx.count('encode_goldens_from_fresh_interpreters')
+                if alone != g['encode']:
+                    ctx.violate('history-dependence/encode/after-decode-in-a-new-interpreter',
+                                'encoding %s alone in a new interpreter gives %s, after decoding it there %s' % (name, alone, g['encode']),
+                                dict(message=name, op='golden'))
+                g['encode'] = alone
+            except Exception as e:
+                ctx.notes.append('encode golden failed for %s: %r' % (name, e))
         ctx.count('golden_from_fresh_interpreters')
         gold[i] = g
     return gold
